@@ -6,8 +6,8 @@ CONSTANTS
   MemberMenu = {}
   MinDur = 1
   MaxDur = 3
-  Period = 1
-  CreatePeriod = 2
+  PeriodSet = {1}
+  CreateSet = {2}
   FeeSet = {1}
   DtSet = {1}
   LimitSet = {1}
